@@ -249,6 +249,30 @@ def solvers_for(case, quick_i=None):
     return out
 
 
+def attach_to_problem1(case, solver, f, g_list, C_list, x0):
+    """Re-attachment history: the SAME solver object first serves another ADMM problem (same
+    operators; different y, W, loss scale, rho, z, u) for one or two x-updates.  Afterwards the
+    caller attaches it to the problem of the case (ADMM.__init__ -> internal_init) and that
+    x-update is checked against system (1) exactly as for a fresh solver object."""
+    import scico.numpy as snp
+    from scico import linop, loss
+    from scico.optimize import ADMM
+    ra = case["reattach"]
+    cplx = case["complex"]
+    f1 = f
+    if case["f"] is not None:
+        yshape = tuple(f.A.output_shape)
+        W1 = None if ra["W"] is None else linop.Diagonal(
+            snp.array(np.array(ra["W"], dtype=np.float64).reshape(yshape)))
+        f1 = loss.SquaredL2Loss(y=snp.array(to_np(ra["y"], yshape, cplx)), A=f.A, scale=ra["scale"], W=W1)
+    a1 = ADMM(f=f1, g_list=g_list, C_list=C_list, rho_list=list(ra["rho"]), x0=x0, maxiter=1,
+              subproblem_solver=solver, itstat_options={"display": False})
+    a1.z_list = [snp.array(to_np(z, tuple(C.output_shape), cplx)) for z, C in zip(ra["z"], C_list)]
+    a1.u_list = [snp.array(to_np(u, tuple(C.output_shape), cplx)) for u, C in zip(ra["u"], C_list)]
+    for _ in range(ra["nupd"]):
+        a1.x = solver.solve(a1.x)
+
+
 def run_solver(case, sspec, built=None):
     """One x-update of the real solver from the given (z, u).  Returns a result dict.
     [built]: the scico objects of the problem (shared between the solvers of one problem, each
@@ -262,6 +286,8 @@ def run_solver(case, sspec, built=None):
         raise Broken("cannot build the generated problem", f"{type(e).__name__}: {e}")
     try:
         solver = make_solver(sspec, case)
+        if case.get("reattach"):
+            attach_to_problem1(case, solver, f, g_list, C_list, x0)
         admm = ADMM(f=f, g_list=g_list, C_list=C_list, rho_list=rho_list, x0=x0, maxiter=1,
                     subproblem_solver=solver, itstat_options={"display": False})
         admm.z_list = list(z_list)
@@ -345,11 +371,22 @@ def gen_blocks_zu(rng, case):
             b["gy"] = rand_arr(rng, osz, cplx)
     case["x0"] = rand_arr(rng, shape, cplx, bits=1, lo=-1, hi=1)
     case["probe"] = rand_arr(rng, shape, cplx)
+    ra = case.get("reattach")
+    if ra:
+        # ADMM problem 1 of the re-attachment history: same operators (so the same solver class
+        # applies), different rho, z, u and -- below -- different y, W and loss scale
+        ra["rho"] = [rng.choice([r for r in RHOS if r != b["rho"]]) for b in case["blocks"]]
+        ra["z"] = [rand_arr(rng, tuple(build_op(b["C"], shape, cplx).output_shape), cplx) for b in case["blocks"]]
+        ra["u"] = [rand_arr(rng, tuple(build_op(b["C"], shape, cplx).output_shape), cplx) for b in case["blocks"]]
     if case["f"] is not None:
         A = build_op(case["f"]["A"], shape, cplx)
         ysz = tuple(A.output_shape)
         case["f"]["y"] = rand_arr(rng, ysz, cplx)
         m = int(np.prod(ysz))
+        if ra:
+            ra["y"] = rand_arr(rng, ysz, cplx, nonzero=True)
+            ra["scale"] = rng.choice([s for s in SCALES if s != case["f"]["scale"]])
+            ra["W"] = None if rng.random() < 0.4 else [rng.choice(WVALS) for _ in range(m)]
         wk = case["f"].pop("wkind")
         if wk == "none":
             case["f"]["W"] = None
@@ -414,6 +451,8 @@ def gen_matrix(rng, i=0):
         cplx = True
     n = rng.randint(2, 5)
     case = {"family": "matrix", "complex": cplx, "shape": [n], "trunc": rng.randint(1, 2)}
+    if k in (0, 7) or (k in (3, 6) and (i // 8) % 2 == 1):
+        case["reattach"] = {"nupd": 1 + (i // 8 + k) % 2}
     r = rng.random()
     if i % 12 == 11:
         case["f"] = None
@@ -475,6 +514,8 @@ def gen_circ(rng, i=0):
         shape = [rng.randint(2, 3), rng.randint(3, 4)]
     nd = len(shape)
     case = {"family": "circ", "complex": cplx, "shape": shape, "ndims": nd}
+    if i % 5 in (1, 3):
+        case["reattach"] = {"nupd": 1 + (i // 5) % 2}
     if i % 5 == 4:
         case["f"] = None
     else:
@@ -502,6 +543,8 @@ def gen_fblock(rng, i=0):
     shape = [K] + sp
     nd = len(sp)
     case = {"family": "fblock", "complex": cplx, "shape": shape, "ndims": nd}
+    if i % 4 in (2, 3):
+        case["reattach"] = {"nupd": 1 + (i // 4) % 2}
     wk = ["none", "uniform", "none", "pos"][i % 4]
     case["f"] = {"A": sumconv_spec(rng, shape, nd, cplx), "scale": rng.choice(SCALES), "wkind": wk}
     if i % 4 in (0, 1):
@@ -519,6 +562,8 @@ def gen_g0(rng, i=0):
     nd = len(sp)
     case = {"family": "g0", "complex": cplx, "shape": shape, "ndims": nd, "f": None,
             "fzero": rng.random() < 0.3}
+    if i % 4 in (0, 3):
+        case["reattach"] = {"nupd": 1 + (i // 4) % 2}
     gscale = 0.5 if i % 2 == 0 else rng.choice([0.25, 0.75, 1.0, 2.0])
     blocks = [{"C": sumconv_spec(rng, shape, nd, cplx), "rho": rng.choice(RHOS), "gscale": gscale}]
     blocks += [{"C": shift_invariant_block(rng, shape, nd, cplx, lead=K), "rho": rng.choice(RHOS)}
@@ -566,6 +611,10 @@ def gen_case(rng, family, i=0):
             case["blocks"].append({"C": {"kind": "Identity"}, "rho": rng.choice([1.0, 2.0, 3.0]),
                                    "z": rand_arr(rng, shape, case["complex"]),
                                    "u": rand_arr(rng, shape, case["complex"])})
+            if case.get("reattach"):
+                case["reattach"]["rho"].append(rng.choice([0.5, 1.5]))
+                case["reattach"]["z"].append(rand_arr(rng, shape, case["complex"]))
+                case["reattach"]["u"].append(rand_arr(rng, shape, case["complex"]))
             A, Cs = problem_matrices(case)
             L = dense_system(case, A, Cs)
             if well_posed(case, L, Cs):
